@@ -54,6 +54,9 @@ def task(i, tag, fault, dur):
     instant, how = fault["instant"], fault["how"]
     if instant == "task_start":
         die(how)
+    if instant == "mid_task_slow":
+        time.sleep(fault.get("after", 0.6))
+        die(how)
     if instant == "mid_task":
         time.sleep(dur / 2)
         die(how)
